@@ -17,7 +17,8 @@ search oracle:  written from the property text, independent of the code under te
                 axis ratios, value 1 at aspect ratio 1, monotonicity, continuity at 1 (all shapes),
                 scalar/array agreement (also across argument types: int / integer arrays / lists / float32 / 0-d /
                 integer-valued aspect-ratio functions vs the float call), clamp below 1, bitwise non-mutation of the caller's array,
-                root property of findRcrit for constant and radius-dependent aspect ratios.
+                root property of findRcrit for constant and radius-dependent aspect ratios, also after any sequence
+                of reconfigurations of one ShapeFactor object (state carried between calls).
 """
 import os, sys, json, math, re, shutil, subprocess, importlib, time
 from fractions import Fraction
@@ -174,6 +175,8 @@ def evaluate_case(c):
         return eval_rcrit(SF, c)
     if kind == 'typed':
         return eval_typed(SF, c)
+    if kind == 'sequence':
+        return eval_sequence(SF, c)
     raise ValueError('unknown case kind %r' % kind)
 
 
@@ -398,6 +401,118 @@ def eval_typed(SF, c):
     return hits
 
 
+# ---- sequences of operations on ONE ShapeFactor object ---------------------------------------------------
+SETTERS = {'sphere': 'setSpherical', 'needle': 'setNeedleShape', 'plate': 'setPlateShape', 'cubic': 'setCuboidalShape'}
+
+
+def run_sequence(SF, c, upto=None):
+    """execute the operations of a sequence case; returns list of (index, op, answer of the reused object,
+    answer of a freshly constructed object in the same configuration, configuration)"""
+    Rs, Rmax = float.fromhex(c['Rs']), float.fromhex(c['Rmax'])
+    sf = SF.ShapeFactor()
+    shape, spec = 'sphere', {'type': 'const', 'p': [1.0]}
+    answers = []
+    for i, op in enumerate(c['ops'] if upto is None else c['ops'][:upto]):
+        k = op[0]
+        if k == 'set_shape':
+            _, how, shape, spec = op
+            ar = aspect_fun(spec, Rs)
+            if how == 'name':
+                sf.setPrecipitateShape(shape, ar)
+            elif how == 'setter':
+                getattr(sf, SETTERS[shape])(ar)
+                if shape == 'sphere':
+                    sf.setAspectRatio(ar)       # setSpherical fixes the aspect ratio at 1
+            else:
+                sf.setPrecipitateShape(descr(SF, shape), ar)
+                if shape == 'sphere':
+                    sf.setAspectRatio(ar)
+        elif k == 'set_aspect':
+            spec = op[1]
+            sf.setAspectRatio(aspect_fun(spec, Rs))
+        elif k == 'description':
+            shape = op[1]
+            sf.description = descr(SF, shape)       # public property; the aspect ratio stays what it was
+        elif k in ('find', 'read'):
+            fresh = SF.ShapeFactor()
+            fresh.description = descr(SF, shape)
+            fresh.setAspectRatio(aspect_fun(spec, Rs))
+            if k == 'find':
+                a, b = sf.findRcrit(Rs, Rmax), fresh.findRcrit(Rs, Rmax)
+            else:
+                R = float(op[2]) * Rs
+                a, b = getattr(sf, op[1])(R), getattr(fresh, op[1])(R)
+            answers.append((i, op, np.array(a, dtype=float), np.array(b, dtype=float), (shape, spec)))
+        else:
+            raise ValueError('unknown operation %r' % (op,))
+    return answers
+
+
+def sequence_hits(SF, c):
+    Rs, Rmax = float.fromhex(c['Rs']), float.fromhex(c['Rmax'])
+    out = []
+    for i, op, a, b, (shape, spec) in run_sequence(SF, c):
+        cfg = '%s, aspect ratio %s' % (shape, spec['p'][0] if spec['type'] == 'const' else '%s%r' % (spec['type'], spec['p']))
+        if a.shape != b.shape or a.tobytes() != b.tobytes():
+            if op[0] == 'find':
+                out.append((i, 'findRcrit_root', 'ShapeFactors.ShapeFactor.findRcrit', 'state carried over a reconfiguration',
+                            'operation %d of the sequence: findRcrit(%r, %r) on the reused object (%s) = %r, a freshly constructed ShapeFactor in the same configuration gives %r'
+                            % (i, Rs, Rmax, cfg, a.tolist(), b.tolist())))
+            else:
+                out.append((i, 'composition', 'ShapeFactors.ShapeFactor.' + op[1], 'state carried over a reconfiguration',
+                            'operation %d of the sequence: %s(%r) on the reused object (%s) = %r, a freshly constructed ShapeFactor in the same configuration gives %r'
+                            % (i, op[1], float(op[2]) * Rs, cfg, a.tolist(), b.tolist())))
+            continue
+        if op[0] == 'find' and a.shape == ():
+            # the root condition itself, with the independent thermodynamic factor
+            ar = aspect_fun(spec, Rs)
+            arf = (lambda R: float(ar)) if spec['type'] == 'const' else (lambda R: float(ar(R)))
+            g = lambda R: R / (Rs * oracle_thermo(shape, arf(R))) - 1
+            r = float(a)
+            if spec['type'] == 'const':
+                bad = not abs(g(r)) <= 1e-8
+            else:
+                g0, g1 = g(Rs), g(Rmax)
+                bad = g0 * g1 < 0 and min(abs(g0), abs(g1)) > 1e-6 and not (min(Rs, Rmax) <= r <= max(Rs, Rmax) and abs(g(r)) <= 1e-3 * (1 + 1e-6) + 1e-8)
+            if bad:
+                out.append((i, 'findRcrit_root', 'ShapeFactors.ShapeFactor.findRcrit', 'sequence',
+                            'operation %d of the sequence: findRcrit(%r, %r) (%s) = %r: R/(R_sphere*factor) - 1 = %r' % (i, Rs, Rmax, cfg, r, g(r))))
+    return out
+
+
+def eval_sequence(SF, c):
+    try:
+        found = sequence_hits(SF, c)
+    except Exception as e:
+        return [('no_internal_error', 'ShapeFactors.ShapeFactor', type(e).__name__, 'sequence raised %s: %s' % (type(e).__name__, e), dict(c))]
+    hits = []
+    seen = set()
+    for i, clause, site, cls, msg in found:
+        if (clause, site, cls) in seen:
+            continue
+        seen.add((clause, site, cls))
+        # minimise: cut after the failing operation, then drop operations one by one while the same clause still fails at the end
+        ops = list(c['ops'][:i + 1])
+
+        def still(ops_):
+            try:
+                hs = sequence_hits(SF, dict(c, ops=ops_))
+            except Exception:
+                return None
+            hs = [h for h in hs if h[0] == len(ops_) - 1 and (h[1], h[2], h[3]) == (clause, site, cls)]
+            return hs[0][4] if hs else None
+        j = 0
+        while j < len(ops) - 1:
+            trial = ops[:j] + ops[j + 1:]
+            if still(trial):
+                ops = trial
+            else:
+                j += 1
+        m2 = still(ops) or msg
+        hits.append((clause, site, cls, m2, dict(c, ops=ops)))
+    return hits
+
+
 def eval_rcrit(SF, c):
     shape = c['shape']
     Rs, Rmax, tol = (float.fromhex(c[k]) if isinstance(c[k], str) else float(c[k]) for k in ('Rs', 'Rmax', 'tol'))
@@ -516,6 +631,61 @@ def gen_typed_cases(rng, quick):
     return cases
 
 
+def gen_aspect_spec(rng, const=None):
+    if const is None:
+        const = rng.random() < 0.6
+    if const:
+        v = [1.0, 2.0, 5.0, 0.5, 2, 5, float(rng.uniform(1, 100)), float(1 + 10.0 ** rng.uniform(-3, 0))][int(rng.integers(0, 8))]
+        return {'type': 'const', 'p': [v]}
+    t = ['linear', 'power', 'saturating', 'decreasing'][int(rng.integers(0, 4))]
+    p = {'linear': [float(rng.uniform(0.2, 3.0)), float(rng.uniform(0.0, 3.0))], 'power': [float(rng.uniform(0.5, 4.0)), float(rng.uniform(0.2, 1.3))],
+         'saturating': [float(rng.uniform(0.0, 40.0)), float(rng.uniform(0.5, 10.0))], 'decreasing': [float(rng.uniform(0.0, 20.0)), float(rng.uniform(0.1, 3.0))]}[t]
+    return {'type': t, 'p': p}
+
+
+def fixed_sequence_cases():
+    """the canonical reuse patterns, always run"""
+    Rs, Rmax = (1e-9).hex(), (2e-8).hex()
+    k = lambda v: {'type': 'const', 'p': [v]}
+    fun = {'type': 'linear', 'p': [1.5, 0.5]}
+    out = []
+    for sh in ('needle', 'plate', 'cubic'):
+        out.append({'kind': 'sequence', 'Rs': Rs, 'Rmax': Rmax, 'ops': [['set_shape', 'instance', sh, k(2.0)], ['find'], ['set_aspect', k(5.0)], ['find']]})
+        out.append({'kind': 'sequence', 'Rs': Rs, 'Rmax': Rmax,
+                    'ops': [['set_shape', 'name', sh, k(2.0)], ['find'], ['set_aspect', fun], ['find'], ['set_aspect', k(3.0)], ['find'], ['read', 'thermoFactor', 1.0]]})
+        out.append({'kind': 'sequence', 'Rs': Rs, 'Rmax': Rmax,
+                    'ops': [['set_shape', 'setter', sh, fun], ['find'], ['description', 'plate' if sh != 'plate' else 'needle'], ['find'], ['set_aspect', k(2.0)], ['find'],
+                            ['set_shape', 'setter', sh, k(7.0)], ['find'], ['description', 'sphere'], ['find']]})
+    return out
+
+
+def gen_sequence_case(rng, i):
+    """operations on one ShapeFactor object: queries (findRcrit, factor reads) interleaved with setAspectRatio (scalar and
+    function), setPrecipitateShape by instance / name, set...Shape, and assignment of the description property"""
+    Rs = float(10.0 ** rng.uniform(-10, -8))
+    Rmax = Rs * float(rng.uniform(4.0, 30.0))
+    ops = []
+    if i % 3 != 0:
+        ops.append(['set_shape', ['instance', 'name', 'setter'][int(rng.integers(0, 3))], SHAPES[int(rng.integers(0, 4))], gen_aspect_spec(rng)])
+    n = int(rng.integers(4, 11))
+    for _ in range(n):
+        u = rng.random()
+        if u < 0.36:
+            ops.append(['find'])
+        elif u < 0.48:
+            ops.append(['read', FACTORS[int(rng.integers(0, 3))] if rng.random() < 0.8 else 'normalRadii', float(rng.uniform(1.0, 4.0))])
+        elif u < 0.70:
+            ops.append(['set_aspect', gen_aspect_spec(rng, const=True)])
+        elif u < 0.80:
+            ops.append(['set_aspect', gen_aspect_spec(rng, const=False)])
+        elif u < 0.92:
+            ops.append(['set_shape', ['instance', 'name', 'setter'][int(rng.integers(0, 3))], SHAPES[int(rng.integers(0, 4))], gen_aspect_spec(rng)])
+        else:
+            ops.append(['description', SHAPES[int(rng.integers(0, 4))]])
+    ops.append(['find'])
+    return {'kind': 'sequence', 'Rs': Rs.hex(), 'Rmax': Rmax.hex(), 'ops': ops}
+
+
 def gen_rcrit_case(rng, i):
     shape = SHAPES[i % 4]
     Rs = float(10.0 ** rng.uniform(-10, -8))
@@ -557,6 +727,11 @@ def nontrivial(c):
         return any(float(v) < 1 for v in c['values'])
     if c['kind'] == 'typed':
         return c['shape'] != 'sphere' and any(int(v) > 1 for v in c['values'])
+    if c['kind'] == 'sequence':
+        # a query after a reconfiguration that followed an earlier query
+        ks = [op[0] for op in c['ops']]
+        first_q = min([i for i, k in enumerate(ks) if k in ('find', 'read')] or [len(ks)])
+        return any(k in ('set_aspect', 'set_shape', 'description') for k in ks[first_q:])
     return True
 
 
@@ -566,6 +741,7 @@ def search(ctx, quick, budget=1.0):
     cases = gen_factor_cases(rng, quick) + gen_continuity_cases(rng, quick) + gen_mutation_cases(rng, quick) + gen_typed_cases(rng, quick)
     nr = int((48 if quick else 6000) * budget)
     cases += [gen_rcrit_case(rng, i) for i in range(nr)]
+    cases += fixed_sequence_cases() + [gen_sequence_case(rng, i) for i in range(int((60 if quick else 2000) * budget))]
     for c in cases:
         try:
             hs = evaluate_case(c)
@@ -574,7 +750,14 @@ def search(ctx, quick, budget=1.0):
         key = {k: v for k, v in c.items() if not k.startswith('_')}
         ctx.count(key, nontrivial(c))
         ctx.hist('kind', c['kind'])
-        ctx.hist('shape', c['shape'])
+        if c['kind'] == 'sequence':
+            ctx.hist('sequence_length', len(c['ops']))
+            for op in c['ops']:
+                ctx.hist('sequence_op', op[0] + ('' if op[0] != 'set_aspect' else ('(scalar)' if op[1]['type'] == 'const' else '(function)')))
+            if len(c['ops']) <= 7:
+                ctx.sample(key, limit=10)
+        else:
+            ctx.hist('shape', c['shape'])
         if c['kind'] == 'rcrit':
             ctx.hist('aspect', c['aspect']['type'])
             ctx.hist('rcrit_bracketed', bool(c.get('_bracketed')))
@@ -853,7 +1036,7 @@ def run(ctx):
                        '1 + 10^U(-9,-1), values below 1 incl. 0 and negatives}, every public function called on the array and on each scalar; '
                        'continuity cases f(1) vs f(1 + 2^-k); argument-type cases (whole-number aspect ratios as Python int, np.int64 / np.int32 / np.float32 scalars, 0-d arrays, int64 / int32 / float32 arrays, lists, tuples, integer-valued aspect-ratio functions and integer constants through ShapeFactor) compared with the float64 call; argument-mutation cases (float / int / 0-d / view arrays, via the description and via ShapeFactor); '
                        'critical-radius cases: R_sphere in [1e-10, 1e-8], Rmax/R_sphere in [1.2, 30], constant and four families of radius-dependent aspect ratios, '
-                       'tolerances 1e-2 .. 1e-10, shape selected by instance / by name / by the set...Shape methods; bisection traces replayed bit-exactly in Coq; non-trivial = non-spherical shape with an aspect ratio above 1 / '
+                       'tolerances 1e-2 .. 1e-10, shape selected by instance / by name / by the set...Shape methods; operation sequences on one ShapeFactor object (findRcrit and factor reads interleaved with setAspectRatio scalar / function, setPrecipitateShape, set...Shape, assignment of description), every answer compared bitwise with a freshly constructed object in the same configuration and with the root condition; bisection traces replayed bit-exactly in Coq; non-trivial = non-spherical shape with an aspect ratio above 1 / '
                        'bracketed root or constant aspect ratio / array with an entry below 1; distinct by hash of the exact input')
     # ---- 1. regenerate the model of the code -------------------------------------------------
     tie_ok, info = regenerate(ctx)
@@ -966,7 +1149,7 @@ def replay(ctx, obj):
     c = obj.get('input') or obj
     c = {k: v for k, v in c.items() if k != 'corpus'}
     kind = c.get('kind')
-    if kind in ('factors', 'continuity', 'mutation', 'rcrit', 'typed'):
+    if kind in ('factors', 'continuity', 'mutation', 'rcrit', 'typed', 'sequence'):
         hits = evaluate_case(c)
         for h in hits:
             print('replay:', h[0], h[1], h[2], '-', h[3])
